@@ -31,6 +31,8 @@ type Pre struct {
 
 type CfgA struct {
 	zoo.Core
+	Opt0   map[string]any `prefix:"c09.a.none0,required=false"` // optional and absent, declared BEFORE the required ones
+	OptV0  string         `value:"${c09.a.none1},required=false"`
 	Host   string         `value:"${c09.a.host}"`
 	Port   int            `value:"${c09.a.port}"`
 	Opt    string         `value:"${c09.a.opt},required=false"`
@@ -619,7 +621,7 @@ func decide(t fataler, b *Base, faults []Site) {
 		for _, c := range in.Extra {
 			switch x := c.(type) {
 			case *CfgA:
-				if x.Opt != "" || x.OptPre != nil || x.OptW != nil {
+				if x.Opt != "" || x.OptPre != nil || x.OptW != nil || x.Opt0 != nil || x.OptV0 != "" {
 					t.Fatalf("C09: optional unsatisfied points of cfg-a are not zero: %+v\n%s", x, desc)
 				}
 				if x.Host != "example.org" || x.Port != 8080 || x.Pre != (Pre{3, "why"}) {
